@@ -120,6 +120,7 @@ struct Scene {
     double buf, pen;
     double sx, sy, tx, ty;
     unsigned smask, tmask;     // ConnDirFlags: Up=1 Down=2 Left=4 Right=8  (Up = smaller y)
+    std::vector<R4> others;    // further connectors (x0,y0)->(x1,y1), all ConnDirAll; only connector 0 is judged
 };
 
 static bool separated(const R4 &a, const R4 &b, double gap) {
@@ -362,6 +363,7 @@ static void runScene(long k, const char *tag, const Scene &s) {
     printf("pen %s\nbuf %s\n", H(s.pen).c_str(), H(s.buf).c_str());
     for (const R4 &r : s.rects) printf("rect %s %s %s %s\n", H(r.x0).c_str(), H(r.y0).c_str(), H(r.x1).c_str(), H(r.y1).c_str());
     printf("src %s %s %u\ndst %s %s %u\n", H(s.sx).c_str(), H(s.sy).c_str(), s.smask, H(s.tx).c_str(), H(s.ty).c_str(), s.tmask);
+    for (const R4 &c : s.others) printf("other %s %s %s %s\n", H(c.x0).c_str(), H(c.y0).c_str(), H(c.x1).c_str(), H(c.y1).c_str());
     fflush(stdout);
     // --- certificate from the oracle (independent of the implementation)
     Oracle o = solve(s);
@@ -380,11 +382,75 @@ static void runScene(long k, const char *tag, const Scene &s) {
     for (const R4 &r : s.rects) { Rectangle poly(Point(r.x0, r.y0), Point(r.x1, r.y1)); new ShapeRef(router, poly); }
     ConnRef *conn = new ConnRef(router, ConnEnd(Point(s.sx, s.sy), s.smask), ConnEnd(Point(s.tx, s.ty), s.tmask));
     conn->setRoutingType(ConnType_Orthogonal);
+    for (const R4 &c : s.others) {
+        ConnRef *oc = new ConnRef(router, ConnEnd(Point(c.x0, c.y0)), ConnEnd(Point(c.x1, c.y1)));
+        oc->setRoutingType(ConnType_Orthogonal);
+    }
     router->processTransaction();
     printPoly("route", conn->route());
     printPoly("display", conn->displayRoute());
     delete router;
     vh::endCase();
+}
+
+// Multi-connector scenes (all endpoints ConnDirAll, crossing penalties 0, so every connector's optimum
+// is its own Hanan optimum with true geometric lengths).  Other connectors' endpoints lie exactly on
+// the row/column of an endpoint P of connector 0, which makes libavoid add "bypass" edges around
+// them; a mis-weighted edge there shows up as a dearer real route.
+//  kind A ("tempting line"): source (0,0), target (a,b), an obstacle sitting on the target's column so
+//     that "along the source row, then down" needs one bend more than "down, then along the target
+//     row"; a free endpoint of another connector at (g,0) (or (-g,0) as control), gap g in 20..200;
+//     random mirror / transpose / source-target swap.
+//  kind B: a random scene of the single-connector generator plus 1-3 connectors with endpoints
+//     collinear with the source or the target of connector 0.
+static Scene genMulti(vh::Rng &r, int maxRects) {
+    Scene s;
+    if (r.coin(2, 3)) {
+        const double pens[2] = {10, 50};
+        s.pen = pens[r.range(0, 1)];
+        s.buf = r.coin(1, 3) ? 0.5 : 0.0;
+        double a = 10 * r.range(15, 45), b = 10 * r.range(12, 40);
+        double g = (double) r.range(20, 200);
+        double half = 10 * r.range(3, 6);
+        if (g >= a - half - s.buf - 2) g = std::max(20.0, a - half - s.buf - 10);
+        R4 ob; ob.x0 = a - half; ob.x1 = a + half; ob.y0 = 10 * r.range(2, 5); ob.y1 = std::min(b - 10, ob.y0 + 10 * r.range(2, 10));
+        if (ob.y1 <= ob.y0) ob.y1 = ob.y0 + 5;
+        s.rects.push_back(ob);
+        R4 fa = {-600, -600, -500, -500}, fb = {a + 300, b + 300, a + 400, b + 400};
+        s.rects.push_back(fa); s.rects.push_back(fb);
+        s.sx = 0; s.sy = 0; s.tx = a; s.ty = b; s.smask = 15; s.tmask = 15;
+        double side = r.coin(4, 5) ? 1 : -1;
+        R4 oc = {side * g, 0, side * g, -(double) r.range(20, 150)};
+        if (r.coin(1, 4)) { oc.x1 = oc.x0 + side * r.range(10, 60); }      // second endpoint elsewhere
+        s.others.push_back(oc);
+        if (r.coin(1, 3)) { R4 o2 = {0, (double) r.range(20, 200), -(double) r.range(20, 100), 0}; o2.y1 = o2.y0; s.others.push_back(o2); }
+        bool fx = r.coin(), fy = r.coin(), tr = r.coin(), sw = r.coin();
+        auto fp = [&](double &x, double &y) { if (fx) x = -x; if (fy) y = -y; if (tr) std::swap(x, y); };
+        for (R4 &q : s.rects) {
+            double ax = q.x0, ay = q.y0, bx = q.x1, by = q.y1; fp(ax, ay); fp(bx, by);
+            q.x0 = std::min(ax, bx); q.x1 = std::max(ax, bx); q.y0 = std::min(ay, by); q.y1 = std::max(ay, by);
+        }
+        for (R4 &q : s.others) { fp(q.x0, q.y0); fp(q.x1, q.y1); }
+        fp(s.sx, s.sy); fp(s.tx, s.ty);
+        if (sw) { std::swap(s.sx, s.tx); std::swap(s.sy, s.ty); }
+        return s;
+    }
+    int cls = (int) r.range(0, 4);
+    s = genScene(r, cls, maxRects, 0);
+    int no = (int) r.range(1, 3);
+    for (int i = 0; i < no; ++i) {
+        for (int t = 0; t < 50; ++t) {
+            bool atSrc = r.coin(); double px = atSrc ? s.sx : s.tx, py = atSrc ? s.sy : s.ty;
+            double gap = (double) r.range(1, 14) * (r.coin() ? 1 : -1);
+            R4 oc; if (r.coin()) { oc.x0 = px + gap; oc.y0 = py; } else { oc.x0 = px; oc.y0 = py + gap; }
+            oc.x1 = oc.x0 + r.range(-6, 6); oc.y1 = oc.y0 + r.range(-6, 6);
+            if (oc.x1 == oc.x0 && oc.y1 == oc.y0) oc.x1 += 3;
+            auto clash = [&](double x, double y) { return (x == s.sx && y == s.sy) || (x == s.tx && y == s.ty); };
+            if (!freePoint(s, oc.x0, oc.y0, 1.0) || !freePoint(s, oc.x1, oc.y1, 1.0) || clash(oc.x0, oc.y0) || clash(oc.x1, oc.y1)) continue;
+            s.others.push_back(oc); break;
+        }
+    }
+    return s;
 }
 
 
@@ -634,6 +700,14 @@ int main(int argc, char **argv) {
         int cls = (int) r.range(0, 4);
         Scene s = genScene(r, cls, maxRects, 2);
         runSceneVG(k, dstTag, nullptr, s);
+    }
+    // multi-connector scenes (appended last so that earlier case indices are stable)
+    long nm = (thorough ? 3000 : 500) * a.scale;
+    for (long c = 0; c < nm; ++c, ++k) {
+        if (!a.want(k)) continue;
+        vh::Rng r = vh::caseRng(a.seed, k);
+        Scene s = genMulti(r, maxRects);
+        runScene(k, "scene-multi", s);
     }
     return 0;
 }
